@@ -193,11 +193,11 @@ theorem scan_render (sp : Spelling) (hv : Valid sp = true) : scan (render sp) = 
     | nil =>
       cases x with
       | nil => rfl
-      | cons c cs => simp [List.dropWhile, hx c rfl]
+      | cons c cs => simp [hx c rfl]
     | cons a as ih =>
       simp only [List.all_cons, Bool.and_eq_true] at hw
       have : isWs a = true := by rw [← isSpace_eq]; exact hw.1
-      simp [List.dropWhile, this, ih hw.2]
+      simp [this, ih hw.2]
   have hend : (sp.ws2.dropWhile isWs).isEmpty = true := by
     have := hdrop sp.ws2 [] hws.2 (by simp)
     simp at this; simp [this]
